@@ -420,6 +420,47 @@ func splitDollar(s string) []string {
 
 func (w *World) externalFuncExists(q string) bool { return false }
 
+// externalKeyPlausible accepts keys of functions or methods of packages outside the module (which have no entry in
+// funcByKey): the package must be one the module imports and the function or method must exist there.
+func (w *World) externalKeyPlausible(key string) bool {
+	k := key
+	method := ""
+	if strings.HasPrefix(k, "(") {
+		i := strings.Index(k, ")")
+		if i < 0 {
+			return false
+		}
+		method = strings.TrimPrefix(k[i+1:], ".")
+		k = strings.TrimPrefix(k[1:i], "*")
+	}
+	j := strings.LastIndex(k, ".")
+	if j < 0 {
+		return false
+	}
+	tp := w.TypesPkg(k[:j])
+	if tp == nil || w.Prog.InModule(tp.Path()) {
+		return false
+	}
+	obj := tp.Scope().Lookup(k[j+1:])
+	if obj == nil {
+		return false
+	}
+	if method == "" {
+		_, ok := obj.(*types.Func)
+		return ok
+	}
+	tn, ok := obj.(*types.TypeName)
+	if !ok {
+		return false
+	}
+	m, _, _ := types.LookupFieldOrMethod(types.NewPointer(tn.Type()), true, tp, method)
+	if m == nil {
+		m, _, _ = types.LookupFieldOrMethod(tn.Type(), true, tp, method)
+	}
+	_, ok = m.(*types.Func)
+	return ok
+}
+
 func (w *World) typeExists(q string) bool {
 	i := strings.LastIndex(q, ".")
 	if i < 0 {
